@@ -339,6 +339,21 @@ func RepopulatePhysicalExpressionFunctions(expr physical.Expression) (physical.E
 				if descriptor.Strict != receivedDescriptor.Strict {
 					continue descriptorLoop
 				}
+				if descriptor.TypeFn != nil {
+					// Overloads with a type function all serialize identically (no argument types, no output type),
+					// so the right one has to be found by typechecking the arguments again.
+					argTypes := make([]octosql.Type, len(expr.FunctionCall.Arguments))
+					for j := range expr.FunctionCall.Arguments {
+						argTypes[j] = expr.FunctionCall.Arguments[j].Type
+						if descriptor.Strict {
+							argTypes[j] = octosql.NonNullable(argTypes[j])
+						}
+					}
+					outputType, matches := descriptor.TypeFn(argTypes)
+					if !matches || !octosql.NonNullable(outputType).Equals(octosql.NonNullable(expr.Type)) {
+						continue descriptorLoop
+					}
+				}
 				if !descriptor.OutputType.Equals(receivedDescriptor.OutputType) {
 					continue descriptorLoop
 				}
